@@ -11,6 +11,9 @@
 use std::io;
 use std::io::Write;
 use std::net::{SocketAddr, ToSocketAddrs, UdpSocket};
+#[cfg(cadence_verif)]
+use crate::verif::sync::Mutex;
+#[cfg(not(cadence_verif))]
 use std::sync::Mutex;
 
 use crate::io::MultiLineWriter;
